@@ -85,7 +85,8 @@ def read_cal(el):
     if n == "PolynomialCalibrator":
         return ir.Poly(tuple((float(t.get("coefficient")), int(t.get("exponent"))) for t in kids(el, "Term")))
     if n == "SplineCalibrator":
-        pts = tuple(sorted((float(p.get("raw")), float(p.get("calibrated"))) for p in kids(el, "SplinePoint")))
+        # stable sort on the raw coordinate only: points sharing a raw value (a step) keep their document order
+        pts = tuple(sorted(((float(p.get("raw")), float(p.get("calibrated"))) for p in kids(el, "SplinePoint")), key=lambda rc: rc[0]))
         return ir.Spline(pts, int(el.get("order", "0")), tb(el.get("extrapolate"), False))
     raise ReadError(f"unsupported calibrator {n}")
 
@@ -261,7 +262,7 @@ def n_cal(c):
         return None
     if isinstance(c, ir.Poly):
         return ("poly", tuple(sorted((float(a), int(e)) for a, e in c.terms)))
-    return ("spline", tuple(sorted((float(r), float(v)) for r, v in c.points)), c.order, c.extrapolate)
+    return ("spline", tuple(sorted(((float(r), float(v)) for r, v in c.points), key=lambda rc: rc[0])), c.order, c.extrapolate)
 
 
 def n_len(L):
